@@ -139,6 +139,17 @@ fn cone_oracle(pd: &PD, h: i64, t: i64, reduced: bool) -> Result<BTreeMap<i64, u
     Ok(h.into_iter().enumerate().filter(|x| x.1 > 0).map(|(i, r)| (i as i64 - nm, r)).collect())
 }
 
+/// user codes beyond the built-in table: the 9-crossing code of 9_46 used in the library's own documentation of the
+/// symmetric numbering (the smallest example with s0 != s1)
+const K9_46: [[usize; 4]; 9] = [[18,8,1,7],[13,6,14,7],[12,2,13,1],[8,18,9,17],[5,14,6,15],[2,12,3,11],[16,10,17,9],[15,4,16,5],[10,4,11,3]];
+
+/// the same diagram numbered from the other fixed point of the involution: every label moved by half a turn; the
+/// result is again a code in the symmetric numbering (e -> 2 - e mod n is preserved exactly by shifts of n/2)
+fn rotate_half(code: &[[usize; 4]]) -> Vec<[usize; 4]> {
+    let n = 2 * code.len();
+    code.iter().map(|x| x.map(|e| (e - 1 + n / 2) % n + 1)).collect()
+}
+
 fn inv_from(code: &[[usize; 4]], mirror: bool) -> InvLink {
     let l = InvLink::sinv_knot_from_code(code.iter().cloned());
     if mirror { l.mirror() } else { l }
@@ -148,6 +159,7 @@ fn cone_case(ctx: &mut Ctx, rng: &mut Rng, idx: usize) {
     let name = NAMES[idx % NAMES.len()];
     let mut code = code_of(name);
     if code.len() > ctx.by_tier(7, 8) { return }
+    if rng.chance(1, 4) { code = rotate_half(&code); ctx.count("user_codes_in_symmetric_numbering", 1) }
     if rng.chance(2, 3) { rng.shuffle(&mut code) }
     let mirror = rng.chance(1, 2);
     let (h, t) = *rng.choose(&[(0i64, 0i64), (1, 0), (0, 1), (1, 1)]);
@@ -224,13 +236,16 @@ type P2 = Poly<'H', FF<2>>;
 
 fn poly_case(ctx: &mut Ctx, rng: &mut Rng, idx: usize) {
     // over F2[H]: d^2 = 0; necessary conditions from the cone at H = 1 and H = 0; ssi relations
-    let name = NAMES[idx % NAMES.len()];
-    let code = code_of(name);
+    let k = idx % (NAMES.len() + 1);
+    let (name, code) = if k == NAMES.len() { ("9_46 (user code)", K9_46.to_vec()) } else { (NAMES[k], code_of(NAMES[k])) };
+    let rotated = rng.chance(1, 3);
+    let code = if rotated { rotate_half(&code) } else { code };
+    if k == NAMES.len() || rotated { ctx.count("user_codes_in_symmetric_numbering", 1) }
     let mut shuffled = code.clone();
     rng.shuffle(&mut shuffled);
     let reduced = rng.chance(1, 2);
     let with_cone = code.len() <= ctx.by_tier(7, 8);
-    let conf = json!({"knot": name, "reduced": reduced, "shuffled_code": shuffled});
+    let conf = json!({"knot": name, "renumbered_from_the_other_fixed_point": rotated, "reduced": reduced, "shuffled_code": shuffled});
     let (c1, c2) = (code.clone(), shuffled.clone());
     let res = guarded(move || {
         let hh = P2::variable();
@@ -275,7 +290,7 @@ pub fn run(ctx: &mut Ctx) {
     ctx.random_cases("cone", NAMES.len() as u64 * reps, |c, r| { let k = c.cur_idx() as usize; cone_case(c, r, k) });
     ctx.random_cases("window", NAMES.len() as u64 * reps / 2, |c, r| { let k = c.cur_idx() as usize; window_case(c, r, k) });
     let reps2 = ctx.by_tier(80u64, 3200);
-    ctx.random_cases("poly", NAMES.len() as u64 * reps2, |c, r| { let k = c.cur_idx() as usize; poly_case(c, r, k) });
+    ctx.random_cases("poly", (NAMES.len() as u64 + 1) * reps2, |c, r| { let k = c.cur_idx() as usize; poly_case(c, r, k) });
     let _ = |x: &dyn Fn() -> bool| x();
     let _: Option<&dyn Fn(&FF2) -> bool> = None;
     let _ = <FF2 as KhRing>::rname;
